@@ -143,5 +143,26 @@ pub fn generate(seed: u64, thorough: bool, sink: &mut Sink) -> Vec<String> {
   push("ranges", take(crate::c15::generate(seed, thorough, &mut scratch), per).iter().map(|c| { let f: Vec<&str> = c.split('\t').collect(); crate::c15::source(&f) }).collect(), &mut rng, sink);
   push("tables", take(crate::c18::generate(seed, thorough, &mut scratch), per / 2).iter().map(|c| crate::c18::source(c)).collect(), &mut rng, sink);
   push("functions-and-matches", take(crate::c16::generate(seed, thorough, &mut scratch), per / 2).iter().map(|c| crate::c16::source(c)).collect(), &mut rng, sink);
+  // transposes, negations and products of matrices of every storage class — fixed sizes up to 4x4, dynamic ones
+  // beyond, square and not — feeding a later statement: a kernel that keeps state in its own output is right the
+  // first time and wrong on every other re-evaluation.  Its own generator state: appended, the cases above keep their place
+  {
+    let mut r2 = Rng::new(seed ^ 0x7A75);
+    let mut srcs: Vec<String> = vec![];
+    let shapes: [(usize, usize); 12] = [(1, 1), (2, 2), (3, 3), (4, 4), (5, 5), (6, 6), (7, 7), (1, 5), (5, 1), (2, 5), (5, 3), (6, 5)];
+    for (r, c) in shapes.iter() { for rep in 0..(if thorough { 12 } else { 3 }) {
+      let kind = ["", "u8", "i64"][rep % 3];
+      let el = |rng: &mut Rng| -> String { let v = rng.range(1, 99); if kind.is_empty() { format!("{}", v) } else { format!("{}<{}>", v, kind) } };
+      let lit = (0..*r).map(|_| (0..*c).map(|_| el(&mut r2)).collect::<Vec<_>>().join(" ")).collect::<Vec<_>>().join("; ");
+      let two = if kind.is_empty() { "2".to_string() } else { format!("2<{}>", kind) };
+      let body = match r2.below(4) {
+        0 => format!("y := x'\nz := y * {}", two),
+        1 => format!("y := x'\nw := y'\nz := w + x"),
+        2 => format!("y := x' + x'\nz := y'"),
+        _ => format!("y := x * {}\nz := y'", two) };
+      srcs.push(format!("x := [{}]\n{}", lit, body));
+    } }
+    for s in srcs { sink.hit("resolve:transposes"); let k = 1 + r2.below(3); cases.push(format!("resolve\t{}\ttransposes\t{}", k, hexs(&s))); }
+  }
   cases
 }
